@@ -95,9 +95,14 @@ func HMacReceiverForeignOrder() {
 	}
 	code, id, sub := vr.U8(), vr.U8(), vr.U8()
 	vr.Assume(code == 1 || code == 2)
+	// the two reserved octets behind the subtype are the sender's business too: whatever they hold is
+	// covered by the code
+	r1, r2 := vr.U8(), vr.U8()
 	w0 := VRefEncodeAka(code, id, sub, withMac(make([]byte, 16)))
+	w0[6], w0[7] = r1, r2
 	mac := vr.HMAC("sha256", key, w0)[:16]
 	w := VRefEncodeAka(code, id, sub, withMac(mac))
+	w[6], w[7] = r1, r2
 	d := new(EAP)
 	err := d.Unmarshal(w)
 	vr.Assert("c15.foreign.unmarshal.noerr", err == nil)
